@@ -5,7 +5,7 @@
    completion must equal it; that equality is the checked correspondence
    (checks/c01.py), these theorems are what the equality then implies. *)
 From Coq Require Import String.
-From Martian Require Import Lib.Bytes Json.Json Mro.Sem Mro.StageSpec Mro.Obs Proofs.Sem.
+From Martian Require Import Lib.Bytes Json.Json Mro.Sem Mro.StageSpec Mro.Obs Proofs.Sem Proofs.SemAlias.
 
 (* a disabled call runs nothing and delivers null; a disabled mapped call may
    instead (the latitude stated in the property) deliver a collection of
@@ -144,3 +144,44 @@ Example C01_nonvacuous :
   fst r = JObj [(unhex "7273", JArr [JArr [JNum 1 0; JNum 1 0]; JArr [JNum 2 0; JNum 2 0]])]
   /\ length (snd r) = 8.
 Proof. vm_compute. split; reflexivity. Qed.
+
+(* The semantics is independent of how calls are aliased: renaming the call
+   ids of every pipeline body by any injective function (consistently in the
+   references to them) changes no output value, no job argument and no job;
+   only the names in the jobs' call paths differ.  (The latitude for disabled
+   mapped calls is resolved per call path, hence the uniformity hypothesis.) *)
+Theorem C01_alias_invariance : forall (sigma : bytes -> bytes) P Orc pf fuel,
+  (forall a b, sigma a = sigma b -> a = b) ->
+  (forall p q, o_nulls Orc p = o_nulls Orc q) ->
+  fst (eval_program (ren_prog sigma P) Orc pf fuel) = fst (eval_program P Orc pf fuel) /\
+  map strip (snd (eval_program (ren_prog sigma P) Orc pf fuel)) =
+  map strip (snd (eval_program P Orc pf fuel)).
+Proof. intros sigma P Orc pf fuel Hinj Hn. exact (alias_invariance_program sigma Hinj P Orc pf Hn fuel). Qed.
+Print Assumptions C01_alias_invariance.
+
+(* and of every callable and call inside, at any fuel *)
+Theorem C01_alias_invariance_callable : forall (sigma : bytes -> bytes) P Orc pf fuel name path path' args,
+  (forall a b, sigma a = sigma b -> a = b) ->
+  (forall p q, o_nulls Orc p = o_nulls Orc q) ->
+  same_result (eval_callable (ren_prog sigma P) Orc pf fuel name path' args)
+              (eval_callable P Orc pf fuel name path args).
+Proof.
+  intros sigma P Orc pf fuel name path path' args Hinj Hn.
+  exact (proj1 (alias_invariance sigma Hinj P Orc pf Hn fuel) name path path' args).
+Qed.
+Print Assumptions C01_alias_invariance_callable.
+
+(* Non-vacuity: prefixing every call id with a byte is injective, really
+   changes the example program, and the spec oracle resolves the latitude
+   uniformly. *)
+Example C01_alias_nonvacuous :
+  (forall a b, cons x41 a = cons x41 b -> a = b) /\
+  (forall p q, o_nulls (spec_oracle ex_spec) p = o_nulls (spec_oracle ex_spec) q) /\
+  ren_prog (cons x41) ex_prog <> ex_prog /\
+  map i_path (snd (eval_program (ren_prog (cons x41) ex_prog) (spec_oracle ex_spec) 10 10)) <>
+  map i_path (snd (eval_program ex_prog (spec_oracle ex_spec) 10 10)).
+Proof.
+  split; [intros a b H; injection H; auto|]. split; [reflexivity|].
+  split; [intros H; apply (f_equal (fun P => c_id (pr_top P))) in H; vm_compute in H; discriminate|].
+  vm_compute. intros H. discriminate.
+Qed.
